@@ -407,10 +407,33 @@ def execute_order(program, ctx, mode):
     # foreign operands: logged for the cross-implementation / cross-process comparison
     foreign = [Foreign(), Foreign('I', 'm'), Foreign('I'), object(), 3, 'I', Foreign(keys[0][0], keys[0][1]),
                SlotFwd('I', 'm'), SlotFwd(keys[0][0], keys[0][1]), SlotFwd(keys[-1][0], keys[-1][1]), SlotProxy(specs[0]), SlotProxy(specs[-1])]
+    # weak proxies as operands: a live one stands for its referent; one whose referent has died raises ReferenceError when asked
+    import weakref as _weakref
+
+    class Mortal:
+        pass
+    gone = Mortal()
+    dead_proxy = _weakref.proxy(gone)
+    del gone
+    foreign += [_weakref.proxy(specs[0]), dead_proxy]
+    ordering_only = []
     if any(k[0] is None for k in keys):
         # a nameless interface against an operand with a string name compares None with str: the known error-path
         # divergence F11d (C: False, Python: TypeError); only operands without a name are used there
-        foreign = [Foreign(), object(), 3, 'I']
+        foreign = [Foreign(), object(), 3, 'I', dead_proxy]
+        # ... but the four ordering operators raise TypeError in both implementations there: logged too (a comparison that
+        # fails must fail cleanly -- no answer with the error left pending)
+        ordering_only = [Foreign('I', 'm'), SlotFwd('I', 'm')]
+    for f in ordering_only:
+        row = []
+        for s in specs[:3]:
+            for opn, fn in ops[2:]:
+                for a, b in ((s, f), (f, s)):
+                    try:
+                        row.append(fn(a, b))
+                    except BaseException as e:   # noqa
+                        row.append('raise:' + type(e).__name__)
+        matrix.append(row)
     for f in foreign:
         row = []
         for s in specs[:3]:
@@ -420,7 +443,7 @@ def execute_order(program, ctx, mode):
                         row.append(fn(a, b))
                     except BaseException as e:   # noqa
                         row.append('raise:' + type(e).__name__)
-            if isinstance(f, (SlotFwd, SlotProxy)):
+            if type(f) in (SlotFwd, SlotProxy):
                 # the rich-comparison methods called directly (no reflection to the rescue)
                 for meth in ('__eq__', '__ne__', '__lt__', '__le__', '__gt__', '__ge__'):
                     try:
